@@ -277,6 +277,34 @@ func checkIndexCase(c *ixCase, codecName string, exp *ixCodec) (string, string) 
 			}
 		}
 	}
+	// "Load inserts a number of records into the index": the same records given in two calls are the same multiset
+	for k := 1; k < len(recs); k++ {
+		idx3, _ := index.New(codec)
+		if err := idx3.Load(recs[:k]); err != nil {
+			return "load", err.Error()
+		}
+		if err := idx3.Load(recs[k:]); err != nil {
+			return "load", err.Error()
+		}
+		var buf bytes.Buffer
+		if _, err := index.WriteTo(idx3, &buf); err != nil {
+			return "marshal-error", err.Error()
+		}
+		if buf.Len() != len(first) {
+			return "load-in-two-calls", fmt.Sprintf("records loaded as %d + %d serialize to %d bytes, loaded at once to %d: the second Load dropped records of the first", k, len(recs)-k, buf.Len(), len(first))
+		}
+		for name, a := range exp.Ans {
+			var q ixRec
+			parts := strings.SplitN(name, "/", 2)
+			fmt.Sscan(parts[0], &q.Code)
+			q.Dig = strings.SplitN(parts[1], "@", 2)[0]
+			n := 0
+			idx3.GetAll(ixCid(q), func(uint64) bool { n++; return true })
+			if n != a.N {
+				return "load-in-two-calls", fmt.Sprintf("records loaded as %d + %d: GetAll(%s) reports %d offsets, specification says %d", k, len(recs)-k, name, n, a.N)
+			}
+		}
+	}
 	return "", ""
 }
 
